@@ -3,7 +3,7 @@ from vlib import f64_bits
 from gen_store import PAYLOADS, TIPS, bstr
 import gen_mc
 
-NDRAWS = 600
+NDRAWS = 4000
 
 
 def gen_features(rng):
@@ -19,6 +19,7 @@ def gen_features(rng):
         "crash": rng.random() < 0.35,
         "netops": rng.random() < 0.4,
         "skew": rng.random() < 0.3,
+        "links": False,
     }
 
 
@@ -50,7 +51,42 @@ def gen_snetop(rng, nnodes):
     return rng.choice(["DROPRATE", "DUPLRATE", "CORRUPTRATE"]) + " %d" % f64_bits(rng.choice([0.0, 0.3, 1.0]))
 
 
+def gen_link_scenario(rng, sid, seed=None):
+    """link-control-heavy scripts: 3-4 nodes, one chatty process per node, many link / partition / disconnect /
+    reset operations interleaved with sends in every direction"""
+    nnodes = rng.choice([3, 3, 4])
+    seed = seed if seed is not None else rng.randrange(1, 1 << 20)
+    feat = {"timers": False, "override": False, "clock": False, "rand_progs": False, "drop": 0.0, "dupl": rng.choice([0.0, 0.0, 1.0]),
+            "corrupt": 0.0, "rand_delay": False, "crash": False, "netops": True, "skew": False, "links": True}
+    lines = ["SEED %d" % seed]
+    for p in range(nnodes):
+        others = [q for q in range(nnodes) if q != p]
+        lines.append("PROG %d %d 0 0 1" % (p, 8))
+        acts = ["S %d %s" % (q, gen_mc.gen_msg(rng)) for q in others]
+        lines.append("ROW %d %d %s" % (p, len(acts), " ".join(acts)))
+    lines.append("DRAWS")
+    for n in range(nnodes):
+        lines.append("OP ADDNODE %d" % n)
+    for p in range(nnodes):
+        lines.append("OP ADDPROC %d %d" % (p, p))
+    if feat["dupl"]:
+        lines.append("OP NET DUPLRATE %d" % f64_bits(feat["dupl"]))
+    for _ in range(rng.randint(8, 22)):
+        r = rng.random()
+        if r < 0.5:
+            lines.append("OP NET " + gen_snetop(rng, nnodes))
+        elif r < 0.8:
+            # a local message makes the process send to every other node; only the first cap invocations act
+            lines.append("OP LOCAL %d %s" % (rng.randrange(nnodes), gen_mc.gen_msg(rng)))
+        else:
+            lines.append("OP STEPS %d" % rng.choice([1, 2, 4]))
+    lines.append("OP UNTILNOEVENTS")
+    return ("SIM", sid, lines), feat, seed
+
+
 def gen_scenario(rng, sid, feat=None, nops=None, seed=None):
+    if feat is None and rng.random() < 0.2:
+        return gen_link_scenario(rng, sid, seed)
     feat = feat or gen_features(rng)
     nnodes = rng.choice([1, 2, 2, 3])
     nprocs = rng.choice([2, 2, 3])
